@@ -66,6 +66,9 @@ type Kernel struct {
 	Sched    *Scheduler
 	PollQ    time.Duration
 	MaxSteps int
+	// MaxTotal bounds the controller steps of one run (0 = unbounded): beyond it the run is
+	// abandoned as inconclusive (it costs too much real time), never judged.
+	MaxTotal int
 
 	trace     []Step
 	KeepTrace int // keep the last N steps (0 = none, <0 = all)
@@ -104,6 +107,7 @@ func New(s *Scheduler) *Kernel {
 		Sched:    s,
 		PollQ:    10 * time.Microsecond,
 		MaxSteps: 3_000_000,
+		MaxTotal: 4_000_000,
 		th:       14695981039346656037,
 		sh:       14695981039346656037,
 		pairSeen: map[string]struct{}{},
@@ -364,7 +368,7 @@ func (k *Kernel) Run(done <-chan struct{}, deadline, settle time.Duration) Outco
 			break
 		}
 		if len(enabled) > 0 {
-			if k.steps-stepsAtAdvance > k.MaxSteps {
+			if k.steps-stepsAtAdvance > k.MaxSteps || (k.MaxTotal > 0 && k.steps > k.MaxTotal) {
 				out.Livelock = true
 				out.HangDump = k.dump()
 
